@@ -88,7 +88,7 @@ def step_class(hist, ej):
     elif name == "dbquery":
         where = "prefix=%s" % (key or "-")
     else:
-        where = "entries=%d" % len(o.get("m") or [])
+        where = "map"
     return "%s:%s:err=%s" % (name, where, res.get("err", "?"))
 
 
@@ -216,7 +216,9 @@ def run(ctx):
     laws_future = pool.submit(laws)
 
     # 2. histories and vectors from the specifications
-    nsim = 2400 if quick else 40000
+    import time
+    t0 = time.time()
+    nsim = 1600 if quick else 24000
     scripts = reg_generate(ctx, nsim)
     if len(scripts) < nsim // 2:
         raise vlib.Inconclusive("history generation produced only %d scripts" % len(scripts))
@@ -225,6 +227,7 @@ def run(ctx):
     if len(mscripts) < (64 if quick else 640) // 2:
         raise vlib.Inconclusive("vector generation produced only %d scripts" % len(mscripts))
 
+    vlib.log("x09: generated %d histories, %d vector scripts in %.1fs" % (len(scripts), len(mscripts), time.time() - t0))
     # 3. run them against the real package, 4. let TLC judge what was recorded
     random.Random(ctx.seed).shuffle(scripts)
     ok = unex = nevents = 0
@@ -232,8 +235,11 @@ def run(ctx):
     batch = 4000
     for b0 in range(0, len(scripts), batch):
         part = scripts[b0:b0 + batch]
+        t1 = time.time()
         hists = execute(ctx, part)
+        t2 = time.time()
         k, u = reg_judge(ctx, part, hists)
+        vlib.log("x09: batch of %d histories: executed in %.1fs, validated in %.1fs" % (len(part), t2 - t1, time.time() - t2))
         ok += k
         unex += u
         for h in hists:
@@ -253,7 +259,9 @@ def run(ctx):
     for e in mevents:
         fns[e["fn"]] = fns.get(e["fn"], 0) + 1
 
+    vlib.log("x09: map vectors done at %.1fs" % (time.time() - t0))
     mcs = laws_future.result()
+    vlib.log("x09: laws done at %.1fs" % (time.time() - t0))
     pool.shutdown()
     distinct = len({vlib.sha(s) for s in scripts if reg_nontrivial(s)}) + \
         len({vlib.sha({k: e.get(k) for k in ("fn", "tree", "flat", "k", "v")}) for e in mevents
